@@ -232,6 +232,35 @@ def rule_header_lines(ctx):
             bad.append("the name item is not the field's name (%s)" % repr(first[0][2])[:100])
         if not ("HeaderValue::as_bytes" in repr(first[2][1]) and item in repr(first[2][1]) and "('f', '1')" in repr(first[2][1])):
             bad.append("the value is not written as the field value's raw bytes")
+    # semantic companions of the structural rules below (R02.4 index-on-success, R02.5 line-loop-exits), read off the same paths:
+    #   every field obtained from the iterator is attempted (a line starts for it); a line that failed is the last thing the
+    #   call does and leaves the index alone; the index has advanced by the number of completely written lines
+    sem_bad = []
+    n_paths = 0
+    for o in outs:
+        if o.kind != "return":
+            continue
+        n_paths += 1
+        st = o.state
+        flat = [p for e in st.events if e[0] == "emit" for p in e[1]]
+        attempts = sum(1 for p in flat if p[0] == "arg")
+        somes = sum(1 for k, v in st.facts.items() if k[0] == "discr" and k[1][0] == "call" and k[1][1].endswith("Iterator::next")
+                    and v[1] == frozenset(["Some"]))
+        writes = [(k, v) for k, v in st.facts.items() if k[0] == "discr" and k[1][0] == "call" and k[1][1] in ("Write::write_fmt", "Write::write_all")]
+        failed = any(v == ("var", frozenset({"Err"})) for k, v in writes)
+        idx = st.read_leaf(("OBJ", "index"), ())
+        # only first-iteration paths are fully concrete (loop_bound=1): judge those
+        if somes == 1 and "'widen'" not in repr(idx):
+            if attempts == 0:
+                sem_bad.append("a field obtained from the iterator is given up without a line being attempted for it")
+            if failed and idx != IDX:
+                sem_bad.append("the index advances although the line was not written completely")
+            if failed and attempts > 1:
+                sem_bad.append("after a line that did not fit the writer goes on with further lines")
+            if not failed and attempts >= 1 and idx == IDX:
+                sem_bad.append("a completely written line does not advance the index")
+    sem_ok = n_paths >= 2 and not sem_bad
+    ctx._c02_loop_semantics = (sem_ok, sorted(set(sem_bad)))
     ctx.check(nfull >= 2 and seen_guard == {True, False} and not bad, R, "header-line",
               "header line = {name} \": \" <raw value bytes> CRLF, plus one more CRLF exactly when the running index equals the last index",
               loc=body_loc(dw), detail=sorted(set(bad))[:5])
@@ -275,7 +304,9 @@ def rule_header_lines(ctx):
     dom = dw.dominators()
     ok = bool(inc_blocks) and sw is not None and all(sw[2] in dom.get(b, set()) for b in inc_blocks) and \
         all(not any(f in dom.get(b, set()) for f in sw[1]) for b in inc_blocks)
-    ctx.check(ok, "R02.4", "index-on-success", "the header index is incremented only under the success edge of the line's try_write (R01.4)", loc=body_loc(dw))
+    sem_ok, sem_bad = getattr(ctx, "_c02_loop_semantics", (False, []))
+    ctx.check(ok or sem_ok, "R02.4", "index-on-success", "the header index advances exactly for completely written lines (dominance of the success edge, "
+              "or the same fact on the abstract paths of the line loop)", loc=body_loc(dw), detail=sem_bad[:3])
     # the line loop is left only when the lines are exhausted or a line did not fit (its try_write failed): any
     # other exit gives up on a line without attempting it, and "overflow exactly when not even the next line fits"
     # no longer holds (a length pre-check is reported even if its arithmetic is right: that it agrees with the
@@ -318,6 +349,9 @@ def rule_header_lines(ctx):
         kinds = [(x, y, switch_source(x)) for x, y in exits]
         okexits = bool(cyc) and all(k in ("fit", "exhausted") for _, _, k in kinds) and {k for _, _, k in kinds} == {"fit", "exhausted"}
         detail = ["exit bb%d->bb%d: %s" % (x, y, k or "not the iterator's end nor the line's try_write result") for x, y, k in kinds]
+    okexits = okexits or sem_ok
+    if not okexits:
+        detail = detail + sem_bad[:3]
     ctx.check(okexits, "R02.5", "line-loop-exits", "the header line loop stops only when the lines are exhausted or a line's all-or-nothing write "
               "failed (no line is given up without being attempted)", loc=body_loc(dw), detail=detail)
     # other phases emit nothing
